@@ -45,6 +45,7 @@ def run(ctx, prop="C06"):
                                    % (k, s.get("brange"), s.get("brange_kind"), st.get("msg")), dict(c, signals=[s]))
             elif st["err"] not in (None, "ValueError"):
                 ctx.impl_violation("unexpected-" + st["err"], "signal %d raised %s: %s" % (k, st["err"], st.get("msg")), dict(c, signals=[s]))
+    S.check_spec(ctx, cases, impl, fmins)
     S.evaluate(ctx, cases, impl, fmins)
     ctx.sample(dict(frame=dict((k, cases[-1][k]) for k in ("T", "F", "df", "dt", "ascending", "prior")), signal=cases[-1]["signals"][0]))
 
